@@ -13,6 +13,8 @@ import (
 	"sync"
 	"time"
 
+	"github.com/btcsuite/btcd/wire/v2"
+
 	"verif/harness/internal/tlc"
 	"verif/harness/internal/vrun"
 )
@@ -319,6 +321,9 @@ func Run(c *vrun.Ctx) error {
 		SerTypes          []string `json:"sertypes"`
 		AllocFactor       int64    `json:"allocfactor"`
 		MaxMessagePayload int64    `json:"maxmessagepayload"`
+		V2Ids             []string `json:"v2ids"`
+		V2Known           []bool   `json:"v2known"`
+		V2Long            []Tok    `json:"v2long"`
 	}
 	_, rexp, err := parseTriple(root.line)
 	if err != nil {
@@ -326,6 +331,11 @@ func Run(c *vrun.Ctx) error {
 	}
 	if err := json.Unmarshal(rexp, &rootExp); err != nil {
 		return err
+	}
+	if !partial {
+		if err := checkV2Table(c, rootExp.Types, rootExp.V2Ids, rootExp.V2Known, rootExp.V2Long); err != nil {
+			return err
+		}
 	}
 	if !partial {
 		var missing []string
@@ -598,4 +608,75 @@ func corruptOne(list []rawCase, kind string) error {
 		return nil
 	}
 	return fmt.Errorf("corrupt: no inv case n-2")
+}
+
+// checkV2Table compares btcd's BIP324 short-id table with the specification's, in both directions:
+// the head WriteV2MessageN writes for every message type, and for every possible first byte whether
+// ReadV2MessageN knows a message for it.
+func checkV2Table(c *vrun.Ctx, types, ids []string, known []bool, long []Tok) error {
+	if len(ids) != 28 || len(known) != len(ids) || len(long) == 0 {
+		return fmt.Errorf("root state lacks the v2 tables (%d ids)", len(ids))
+	}
+	idOf := map[string]int{}
+	for i, n := range ids {
+		idOf[n] = i + 1
+	}
+	evals := int64(0)
+	for _, t := range types {
+		m := emptyMsg(t)
+		if m == nil {
+			return fmt.Errorf("no message value for type %s", t)
+		}
+		var want []byte
+		if id := idOf[t]; id > 0 {
+			want = []byte{byte(id)}
+		} else {
+			var err error
+			if want, err = headBytes(long, []byte(t)); err != nil {
+				return err
+			}
+		}
+		var buf bytes.Buffer
+		wire.WriteV2MessageN(&buf, m, 70016, wire.WitnessEncoding) // the head is written first, whatever the payload
+		got := buf.Bytes()
+		evals++
+		if len(got) < len(want) || !bytes.Equal(got[:len(want)], want) {
+			c.Violation("v2-table:write:"+t, fmt.Sprintf("WriteV2MessageN(%s) starts with %x, the specification's head is %x", t, got[:min(len(got), 13)], want),
+				map[string]any{"type": t})
+		}
+	}
+	for b := 0; b < 256; b++ {
+		var cls string
+		var err error
+		func() {
+			defer func() {
+				if r := recover(); r != nil {
+					cls = "panic"
+					err = fmt.Errorf("%v", r)
+				}
+			}()
+			_, _, err = wire.ReadV2MessageN([]byte{byte(b)}, 70016, wire.WitnessEncoding)
+			cls = classify(err)
+		}()
+		var ok bool
+		switch {
+		case b == 0:
+			ok = cls == "malformed" // a long head cut after its first byte
+		case b <= len(ids) && known[b-1]:
+			ok = cls != "unknown" && cls != "panic"
+		default:
+			ok = cls == "unknown"
+		}
+		evals++
+		if !ok {
+			name := ""
+			if b >= 1 && b <= len(ids) {
+				name = ids[b-1]
+			}
+			c.Violation(fmt.Sprintf("v2-table:read:%d", b), fmt.Sprintf("ReadV2MessageN of the single byte %#02x (short id of %q in the specification): %s (%v)", b, name, cls, err),
+				map[string]any{"first_byte": b})
+		}
+	}
+	c.AddEval(evals)
+	return nil
 }
